@@ -271,10 +271,23 @@ func (c *checker) run() int {
 
 	// 3. listed known findings: re-verify each from its stored replay
 	for _, k := range c.known {
-		if k.Property != c.id || k.Status != "known" {
+		if k.Property != c.id || k.Replay == "" {
 			continue
 		}
-		if k.Replay == "" {
+		if k.Status == "fixed" {
+			// regression: the history that used to fail must pass now; if the
+			// defect has returned it is reported like any other violation
+			rr, code, se := c.replayOnce(filepath.Join(c.verif, k.Replay))
+			if rr == nil {
+				return c.fail2("replay of fixed finding %s failed (exit %d): %s", k.Key, code, se)
+			}
+			if rr.Viol != nil {
+				fmt.Printf("the history of the finding recorded as fixed in %s fails again\n", k.Commit)
+				return c.handleFailure(rr.Trace, nil)
+			}
+			continue
+		}
+		if k.Status != "known" {
 			continue
 		}
 		rr, code, se := c.replayOnce(filepath.Join(c.verif, k.Replay))
